@@ -731,3 +731,116 @@ def run_extended(ctx, res, thorough):
                     if k.split(".")[0] == pkg:
                         del sys.modules[k]
     return steps_total
+
+
+def run_toplevel_entry(ctx, res, what):
+    """the top-level entry points with arguments, through the public API only: dds.keep(path, f, *args, **kwargs) and
+    dds.eval(f, *args, **kwargs) for every kind of parameter list. what='values' (C01): a call is refused or returns what plain
+    execution returns, whatever was evaluated before with other arguments. what='entry' (C02): a function kept by a nested keep of an
+    evaluation and then kept / called at the top level with the same (defaulted) arguments, or the other way round, is not executed
+    again."""
+    import importlib
+    import dds
+    import dds._api as api
+    pipeline.real_runner()
+    import ddsverif_rt
+    saved_store = api._store_var
+    base = tempfile.mkdtemp(prefix="ddsverif_c01t_")
+    pkg = "c01t_%d_%s" % (os.getpid(), what)
+    src = ("import dds\nfrom ddsverif_rt import log, term\n\n"
+           "def plain2(a, b=2):\n    log('plain2')\n    return term('plain2', a, b)\n\n"
+           "def star_kw(*xs, scale=1):\n    log('star_kw')\n    return term('star_kw', list(xs), scale)\n\n"
+           "def kwonly(a, *, scale=1):\n    log('kwonly')\n    return term('kwonly', a, scale)\n\n"
+           "def star(a, *rest):\n    log('star')\n    return term('star', a, list(rest))\n\n"
+           "def kwargs(a, **kw):\n    log('kwargs')\n    return term('kwargs', a, sorted(kw.items()))\n\n"
+           "def opt_none(x=None):\n    log('opt_none')\n    return term('opt_none', x)\n\n"
+           "def opt_none2(a=1, x=None, y=0):\n    log('opt_none2')\n    return term('opt_none2', a, x, y)\n\n"
+           "def opt_false(x=False):\n    log('opt_false')\n    return term('opt_false', x)\n\n"
+           "@dds.data_function('/t/df_none')\ndef df_none(x=None):\n    log('df_none')\n    return term('df_none', x)\n\n"
+           "def pipe_star_kw(*xs, scale=1):\n    return term('pipe', dds.keep('/t/inner_star_kw', star_kw, *xs, scale=scale))\n\n"
+           "def nested():\n    return term('nested', dds.keep('/t/opt_none', opt_none), dds.keep('/t/opt_none2', opt_none2), dds.keep('/t/opt_false', opt_false), df_none())\n")
+    try:
+        os.makedirs(os.path.join(base, pkg))
+        open(os.path.join(base, pkg, "__init__.py"), "w").close()
+        with open(os.path.join(base, pkg, "main.py"), "w") as fh:
+            fh.write(src)
+        sys.path.insert(0, base)
+        importlib.invalidate_caches()
+        dds.accept_module(pkg)
+        mod = importlib.import_module(pkg + ".main")
+        for store_kind in ("memory", "local"):
+            sdir = os.path.join(base, "s_" + store_kind)
+            if store_kind == "memory":
+                dds.set_store("memory")
+            else:
+                dds.set_store("local", internal_dir=os.path.join(sdir, "si"), data_dir=os.path.join(sdir, "sd"))
+            if what == "values":
+                calls = [("plain2", (1,), {}), ("plain2", (1, 3), {}), ("plain2", (1,), {"b": 4}), ("plain2", (1,), {"b": 2}),
+                         ("star_kw", (1, 2), {"scale": 3}), ("star_kw", (1, 2), {"scale": 10}), ("star_kw", (1,), {"scale": 10}), ("star_kw", (1, 2, 3), {"scale": 10}),
+                         ("star_kw", (1, 2, 3), {}), ("kwonly", (1,), {"scale": 3}), ("kwonly", (1,), {"scale": 4}), ("kwonly", (2,), {}),
+                         ("star", (1, 2, 3), {}), ("star", (1, 2, 4), {}), ("star", (1,), {}), ("kwargs", (1,), {"p": 1}), ("kwargs", (1,), {"p": 2}), ("kwargs", (1,), {"q": 1}),
+                         ("pipe_star_kw", (1, 2), {"scale": 3}), ("pipe_star_kw", (1, 2), {"scale": 10}), ("pipe_star_kw", (5, 2), {"scale": 10})]
+                for entry in ("keep", "eval"):
+                    for (fname, args, kw) in calls:
+                        f = getattr(mod, fname)
+                        if fname == "pipe_star_kw":
+                            want = ddsverif_rt.term("pipe", mod.star_kw(*args, **kw))
+                        else:
+                            want = f(*args, **kw)
+                        try:
+                            got = dds.keep("/t/top_" + fname, f, *args, **kw) if entry == "keep" else dds.eval(f, *args, **kw)
+                        except BaseException as e:
+                            # a loud failure (NotImplementedError for *args / keyword-only parameters, an assertion for **kwargs given
+                            # at the top level): outside the supported subset, no value is returned
+                            res.count("toplevel_call_refused_%s_%s" % (fname, type(e).__name__))
+                            api._eval_ctx = None
+                            continue
+                        res.evaluations += 1
+                        res.count("toplevel_calls_with_arguments")
+                        res.nontrivial("toplevel %s %s %s %s %s" % (store_kind, entry, fname, args, sorted(kw.items())))
+                        if got != want:
+                            res.violations.append({"what": "dds.%s of %s with the arguments %s %s returns %r, plain execution %r (evaluated before on the same store: the same "
+                                                           "function with other arguments)" % (entry, fname, args, kw, got, want),
+                                                   "input": {"source": src, "entry": entry, "function": fname, "args": list(args), "kwargs": kw, "store": store_kind}, "kf": None})
+            else:
+                for order in ("nested_first", "top_first"):
+                    if store_kind == "memory":
+                        dds.set_store("memory")
+                    else:
+                        dds.set_store("local", internal_dir=os.path.join(sdir, order, "si"), data_dir=os.path.join(sdir, order, "sd"))
+                    tops = [lambda: dds.keep("/t/opt_none", mod.opt_none), lambda: dds.keep("/t/opt_none2", mod.opt_none2),
+                            lambda: dds.keep("/t/opt_false", mod.opt_false), lambda: mod.df_none()]
+                    steps = [("nested", lambda: dds.eval(mod.nested))] + [("top%d" % i, t) for i, t in enumerate(tops)]
+                    if order == "top_first":
+                        steps = steps[1:] + steps[:1]
+                    executed = []
+                    failed = None
+                    for (sname, step) in steps + steps:
+                        del ddsverif_rt.LOG[:]
+                        try:
+                            step()
+                        except BaseException as e:
+                            failed = "%s: %s: %s" % (sname, type(e).__name__, str(e)[:160])
+                            api._eval_ctx = None
+                            break
+                        executed += [(sname, x) for x in ddsverif_rt.LOG]
+                    res.evaluations += len(steps) * 2
+                    res.count("entry_style_switches")
+                    res.nontrivial("entry style %s %s" % (store_kind, order))
+                    names = [x for (_, x) in executed]
+                    twice = sorted(set(n for n in names if names.count(n) > 1))
+                    if failed or twice:
+                        res.violations.append({"what": "functions with optional parameters left at their defaults (None, False, 0), kept once by the nested keeps of an evaluation and "
+                                                       "once at the top level (%s), nothing edited in between: %s" % (order, failed or "executed more than once: %s (%s)" % (twice, executed)),
+                                               "input": {"source": src, "order": order, "store": store_kind}, "kf": None})
+    except BaseException as e:
+        res.violations.append({"what": "the top-level entry stratum failed: %s: %s" % (type(e).__name__, str(e)[:300]), "input": {"source": src}, "kf": None})
+    finally:
+        api._eval_ctx = None
+        api._store_var = saved_store
+        if base in sys.path:
+            sys.path.remove(base)
+        shutil.rmtree(base, ignore_errors=True)
+        for k in list(sys.modules):
+            if k.split(".")[0] == pkg:
+                del sys.modules[k]
